@@ -122,7 +122,7 @@ class C19(Prop):
             ver = rng.choice(["v1", "v2c", "v2c"])
             sess = community_session(rng, ver)
             sess["max_repetitions"] = rng.choice([1, 2])
-            rps = rng.choice([1, 2, 3, 7, 10, 100, 1000, 0.5, 33.3])
+            rps = rng.choice([1, 2, 3, 7, 10, 100, 1000, 0.5, 33.3, 2000, 10000, 1e6, 999.5])
             sess["limit_rps"] = rps
             sess["policer_arg"] = rng.choice([None, None, True, "both"])
             sess["timeout_ns"] = 1_000_000_000
